@@ -3,6 +3,8 @@ package main
 import (
 	"fmt"
 	"go/types"
+	"os"
+	"runtime/debug"
 	"sort"
 	"strings"
 
@@ -76,12 +78,15 @@ func keys(m map[string]bool) []string {
 }
 
 // VerifyFunc generates all obligations for fn against its contract.
-func VerifyFunc(w *World, fn *ssa.Function, c *Contract, mode string) *FnResult {
+func VerifyFunc(w *World, fn *ssa.Function, c *Contract, mode string) (res *FnResult) {
 	fc := NewFnCtx(w, fn, c, mode)
 	qn := QualName(fn)
-	res := &FnResult{Fn: qn, Instrs: instrCount(fn)}
+	res = &FnResult{Fn: qn, Instrs: instrCount(fn)}
 	defer func() {
 		if r := recover(); r != nil {
+			if os.Getenv("VERIF_DEBUG") != "" {
+				debug.PrintStack()
+			}
 			fc.unsup = append(fc.unsup, fmt.Sprintf("engine panic: %v", r))
 			res.Unsup = fc.unsup
 			res.Obls = []*Obl{{Name: qn + "#engine", Kind: "body", Script: "(assert true)(check-sat)\n", Expect: "unsat", Fn: qn, Src: fmt.Sprintf("engine panic: %v", r)}}
